@@ -44,14 +44,24 @@ structure Sys where
   st : St
   r : RPh
   a : APh
+  /-- released from its `…:before-lock` point while the other thread holds the mutex: now really
+  waiting inside `probation.lock()`; it proceeds by itself as soon as the mutex is released -/
+  rBlocked : Bool
+  aBlocked : Bool
+
+def Sys.init (s0 : St) : Sys := { st := s0, r := .start, a := .start, rBlocked := false, aBlocked := false }
 
 def rHolds : RPh → Bool | .inCrit .. => true | _ => false
 def aHolds : APh → Bool | .inCrit .. => true | _ => false
+def rWaiting : RPh → Bool | .waiting => true | _ => false
+def aWaiting : APh → Bool | .waiting => true | _ => false
 def rDone : RPh → Bool | .early | .finished => true | _ => false
 def aDone : APh → Bool | .finished => true | _ => false
 
-/-- the receive thread runs to its next yield point (no-op when done or blocked on the mutex) -/
-def pickR (R : Crit) (y : Sys) : Sys :=
+/-- one granule of the receive thread (no-op when done; a thread at `before-lock` does not move while
+the other section is open — MUTUAL EXCLUSION BY THE PROBATION MUTEX IS AN ASSUMPTION OF THIS MODEL;
+the harness's race executor observes it on the real code with a `try_lock` probe) -/
+def stepR (R : Crit) (y : Sys) : Sys :=
   match y.r with
   | .start => if y.st.rtpLatched then { y with r := .early } else { y with r := .waiting }
   | .waiting =>
@@ -63,8 +73,8 @@ def pickR (R : Crit) (y : Sys) : Sys :=
     else { y with st := R.mid t (j + 1), r := .inCrit (j + 1) t }
   | _ => y
 
-/-- the API thread runs to its next yield point -/
-def pickA (A : Crit) (y : Sys) : Sys :=
+/-- one granule of the API thread -/
+def stepA (A : Crit) (y : Sys) : Sys :=
   match y.a with
   | .start => { y with a := .waiting }
   | .waiting =>
@@ -76,10 +86,27 @@ def pickA (A : Crit) (y : Sys) : Sys :=
     else { y with st := A.mid t (j + 1), a := .inCrit (j + 1) t }
   | .finished => y
 
+/-- the scheduler RELEASES the receive thread from its yield point: it runs one granule — or, released
+at `before-lock` while the API section is open, blocks inside `lock()`. A thread that leaves its
+critical section hands the mutex to a blocked peer, which then runs its first granule by itself. -/
+def pickR (R A : Crit) (y : Sys) : Sys :=
+  if y.rBlocked then y
+  else if rWaiting y.r && aHolds y.a then { y with rBlocked := true }
+  else
+    let y1 := stepR R y
+    if y1.aBlocked && !rHolds y1.r then { stepA A y1 with aBlocked := false } else y1
+
+def pickA (R A : Crit) (y : Sys) : Sys :=
+  if y.aBlocked then y
+  else if aWaiting y.a && rHolds y.r then { y with aBlocked := true }
+  else
+    let y1 := stepA A y
+    if y1.rBlocked && !aHolds y1.a then { stepR R y1 with rBlocked := false } else y1
+
 /-- a schedule: `true` = the receive thread is picked -/
 def runSched (R A : Crit) (y : Sys) : List Bool → Sys
   | [] => y
-  | b :: bs => runSched R A (if b then pickR R y else pickA A y) bs
+  | b :: bs => runSched R A (if b then pickR R A y else pickA R A y) bs
 
 /-! ### the concrete critical sections (as in `conn.rs` after the lock-discipline fix) -/
 
